@@ -44,8 +44,9 @@ import tempfile
 import vlib
 
 RULE = ("TLC explores every interleaving of periodic checkpoints, the savepoint request, acknowledgements, "
-        "publication, retention, flush/compaction, the per-operator artifact copy, wipe and restore of "
-        "Savepoint.tla for small constants; simulated behaviours (and the counterexamples of the model with "
+        "publication in any completion order (a savepoint's publication overtaken by the next checkpoint's), retention, "
+        "flush/compaction, the per-operator artifact copy, wipe and restore - and of chains of two savepoints (the job "
+        "started from a savepoint takes a savepoint of its own) - of Savepoint.tla for small constants; simulated behaviours (and the counterexamples of the model with "
         "ListFiles as found) are replayed end-to-end on the real in-process cluster on a real directory "
         "through gates and judged by the savepoint directory's contents, the state the handlers are given "
         "after starting from the savepoint URI with the working storage deleted, the source positions, "
